@@ -23,11 +23,12 @@ SPEC = dict(
         "row order and slice order are both observable"
     ),
     bound=dict(
-        quick="programs with <= 2 ops over 3 leaves, shape scenarios S1,S2 (all grad) and S1 (L1 without grad), S3 depth<=1",
+        quick="programs with <= 2 ops over 3 leaves, shape scenarios S1,S2 (all grad) and S1 (L1 without grad), S3 depth<=1; "
+              "plus all 2-op programs with three outputs of mixed rank (>= two 0-d, one >= 1-d) in all six orders; leaf outputs; container kinds; column-major leaves",
         thorough="all scenarios with <= 2 ops (full configuration product, both output orders) plus all programs with 3 ops on scenario S1 (all leaves requiring grad; light product, ascending output order)",
     ),
     assumptions=[
-        "ops limited to the grammar of mc/programs.py; <= 3 leaves; <= 2 output tensors; tensors <= 2-d",
+        "ops limited to the grammar of mc/programs.py; <= 3 leaves; <= 2 output tensors (3 in the mixed-rank family); tensors <= 2-d",
         "non-linear aggregators are checked through the recorded matrix/vector (column equivariance is C08)",
         "torch.autograd itself is trusted only through agreement with the independent NumPy forward-mode interpreter",
     ],
